@@ -422,3 +422,13 @@ Proof.
   rewrite Ho in Ho'. apply app_inj_tail in Ho'. destruct Ho' as [_ <-].
   exists ds, last. split; [exact Ho|]. split; [exact Hds|]. destruct Hl as [Hl|Hl]; [left; lia|right; exact Hl].
 Qed.
+
+(* the weight the isolation step works with is 0 exactly when NO item of positive weight is left — items without weight
+   (profiles without samples) in front do not hide the ones behind them (firstProfileSamples looks past them) *)
+Lemma first_weight_zero_iff w l : first_weight w l = 0 <-> (forall i, In i l -> w i <= 0).
+Proof.
+  induction l as [|x l IH]; cbn [first_weight]; [split; [intros _ i []|reflexivity]|].
+  destruct (0 <? w x) eqn:E.
+  - apply Z.ltb_lt in E. split; [lia|]. intros H. specialize (H x (or_introl eq_refl)). lia.
+  - apply Z.ltb_ge in E. rewrite IH. split; [intros H i [<-|Hi]; [exact E|exact (H i Hi)]|intros H i Hi; apply H; now right].
+Qed.
